@@ -285,6 +285,17 @@ pub fn ack_reason_string(n: u64) -> String {
 }
 
 impl World {
+    /// Properties of a CONNACK that tell the client nothing it acts on (capabilities at their permissive values, informative
+    /// strings): the first half goes in front of Receive Maximum / Maximum Packet Size / Session Expiry Interval, the second
+    /// half behind them.
+    fn connack_chatter(front: bool) -> Vec<Prop> {
+        if front {
+            vec![Prop::pair("ck", "cv"), Prop::byte(0x25, 1), Prop::str(18, "assigned-client-id"), Prop::u16(0x22, 8)]
+        } else {
+            vec![Prop::str(31, "welcome"), Prop::byte(0x28, 1), Prop::byte(0x29, 1), Prop::byte(0x2a, 1), Prop::u16(19, 30), Prop::str(26, "response/info"), Prop::pair("ck", "")]
+        }
+    }
+
     /// Connects (CONNECT / CONNACK) and starts run().
     pub fn boot(cfg: WorldCfg) -> World {
         Self::boot_early(cfg, &[])
@@ -319,11 +330,19 @@ impl World {
             sim.settle();
         }
         let mut props = Vec::new();
+        // one CONNACK in three states everything a broker may state, with the limits that matter in the middle of it
+        let talkative = cfg.seed % 3 == 1;
+        if talkative {
+            props.extend(Self::connack_chatter(true));
+        }
         if let Some(r) = cfg.receive_max {
             props.push(Prop::u16(33, r));
         }
         if let Some(m) = cfg.max_packet {
             props.push(Prop::u32(39, m));
+        }
+        if talkative {
+            props.extend(Self::connack_chatter(false));
         }
         sim.feed_packet(&SPacket::Connack { session_present: cfg.session_present, reason: 0, props });
         sim.settle();
@@ -1158,12 +1177,19 @@ impl World {
             self.sim.cmd(Cmd::Connect(conn));
             self.sim.settle();
         }
-        let mut cprops = connack_sei.map(|v| vec![Prop::u32(17, v)]).unwrap_or_default();
+        let talkative = self.reconnects % 2 == 0;
+        let mut cprops = if talkative { Self::connack_chatter(true) } else { vec![] };
+        if let Some(v) = connack_sei {
+            cprops.push(Prop::u32(17, v));
+        }
         if let Some(r) = o.receive_max {
             cprops.push(Prop::u16(33, r));
         }
         if let Some(m) = o.max_packet {
             cprops.push(Prop::u32(39, m));
+        }
+        if talkative {
+            cprops.extend(Self::connack_chatter(false));
         }
         self.r = o.receive_max.map(|x| x as u32).unwrap_or(65535);
         self.max_packet = o.max_packet;
